@@ -162,6 +162,12 @@ def e2_merge_term_loop(ctx, num):
     run_scenarios(ctx, [lift.lift_termloop(b, i) for i, b in enumerate(behs)], "e2termloop", perfile=10, shards=4)
 
 
+def e1_dv_reader(ctx):
+    """E1: multi-field doc-value reader on storage failing inside a call (every read of a load, permanent or transient)."""
+    tlc_mc(ctx, "DvReader", "MC_DvReader.cfg", workers=8)
+    devs(ctx, "DvReader", ["HeaderBeforeInvalidate", "SharedLoadDecision"], "AllInv")
+
+
 def e1_load_layout(ctx):
     tlc_mc(ctx, "LoadLayout", "MC_LoadLayout.cfg", workers=4)
     tlc_mc(ctx, "LoadLayout", "MC_LoadLayout_dev_FieldsLookAhead.cfg", workers=4, expect_violation="LookAheadInsideData")
@@ -347,6 +353,7 @@ def plan_C06(ctx):
 
 
 def plan_C07(ctx):
+    e1_dv_reader(ctx)
     e1_dv(ctx)
     run_family(ctx, "dv_small", n_of(ctx, 200, 4000), perfile=n_of(ctx, 20, 40))
     run_family(ctx, "dv_walk", n_of(ctx, 24, 300), perfile=2)
@@ -508,6 +515,7 @@ def plan_C18(ctx):
 
 
 def plan_C19(ctx):
+    e1_dv_reader(ctx)
     e1_fst_cache(ctx)
     e2_fst_cache(ctx, n_of(ctx, 40, 400))
     run_family(ctx, "fault_read", n_of(ctx, 150, 3000), perfile=n_of(ctx, 15, 40))
